@@ -402,7 +402,14 @@ func c13TypedOf[T any](gen func(cfg c13Config, r *rand.Rand) []T) c13Typed {
 	}
 }
 
+// schemas and fault enumerators registered by other files of the package (c13_levels.go)
+var c13ExtraSchemas = map[string]func() c13Typed{}
+var c13ExtraFaults = map[string]func(p c13Page, tier string, r *rand.Rand) []c13Fault{}
+
 func c13TypedFor(cfg c13Config) c13Typed {
+	if t, ok := c13ExtraSchemas[cfg.Schema]; ok {
+		return t()
+	}
 	switch cfg.Schema {
 	case "flat":
 		return c13TypedOf(func(cfg c13Config, r *rand.Rand) []c13Flat {
@@ -450,6 +457,9 @@ type c13Page struct {
 	BodyOff      int64
 	BodyLen      int
 	CRC          uint32 // 0 = the header has no CRC field
+	BodyCRC      uint32 // CRC-32 of the body as located in the pristine file (the CRC the format asks for)
+	RepLen       int    // v2: repetition_levels_byte_length
+	DefLen       int    // v2: definition_levels_byte_length
 	DictEnc      bool   // data page whose values are dictionary indexes
 	Levels       int    // bytes of levels in the body (v2; v1: -1 unknown but present when the column is nested)
 	DataOrd      int    // ordinal among the data pages of the chunk (-1 for the dictionary page)
@@ -498,6 +508,7 @@ func c13Locate(data []byte, f *parquet.File) ([]c13Page, error) {
 					e := h.DataPageHeaderV2.V.Encoding
 					p.DictEnc = e == format.RLEDictionary || e == format.PlainDictionary
 					p.Levels = int(h.DataPageHeaderV2.V.RepetitionLevelsByteLength + h.DataPageHeaderV2.V.DefinitionLevelsByteLength)
+					p.RepLen, p.DefLen = int(h.DataPageHeaderV2.V.RepetitionLevelsByteLength), int(h.DataPageHeaderV2.V.DefinitionLevelsByteLength)
 				default:
 					return nil, fmt.Errorf("unexpected page type %v", h.Type)
 				}
@@ -522,6 +533,7 @@ func c13Locate(data []byte, f *parquet.File) ([]c13Page, error) {
 				if p.BodyOff+int64(p.BodyLen) > end {
 					return nil, fmt.Errorf("page body past the end of the chunk")
 				}
+				p.BodyCRC = crc32.ChecksumIEEE(data[p.BodyOff : p.BodyOff+int64(p.BodyLen)])
 				out = append(out, p)
 				off += n + int64(p.BodyLen)
 				idx++
@@ -1391,6 +1403,10 @@ func c13Key(p c13Page, a c13Access, class string) string {
 		return class + "-" + kind + "-" + a.Path
 	}
 	switch {
+	case p.CRC == 0 && p.BodyCRC != 0:
+		// NOT F8: the CRC-32 of the body is not 0, yet the header carries no CRC field — the writer left
+		// the checksum out (or computed it over something else that sums to 0)
+		return c13AbsentKey(p) + sfx
 	case p.CRC == 0:
 		return "crc-zero-omitted" + sfx
 	case c13IsEntryPath(a.Path):
@@ -1691,7 +1707,11 @@ func c13RunJob(job c13Job, col *c13Collector) {
 			if strings.HasPrefix(cfg.Schema, "crczero") {
 				tier = "thorough" // every bit of these small pages
 			}
-			for k, ft := range c13Faults(p, tier, r) {
+			faults := c13Faults
+			if fn := c13ExtraFaults[cfg.Schema]; fn != nil {
+				faults = fn
+			}
+			for k, ft := range faults(p, tier, r) {
 				items = append(items, item{p, ft, k == 0})
 			}
 		}
